@@ -62,6 +62,29 @@ def oracle(ctx, seeds=None):
                 res.fail('%s:periodic' % cfg['model'], "eq %d: periodic integral changes by %r" % (k, float(np.sum(vol * st['res0'][k]))), dict(cfg=cfg))
             if bct == ('sym', 'sym') and k in ((0, 2) if mod.neq == 3 else (0,)) and abs(float(np.sum(vol * st['res0'][k]))) > 1e-11 * sc:
                 res.fail('%s:walls' % cfg['model'], "eq %d: wall-bounded integral changes by %r" % (k, float(np.sum(vol * st['res0'][k]))), dict(cfg=cfg))
+    # ---- slip walls on both ends, every Euler and shallow-water flux, moving gas / water next to the walls (every run)
+    for model in ('euler', 'sw', 'nozzle'):
+        for flux in cfg1d.FLUXES[model]:
+            for j in range(ctx.n(3, 30)):
+                cfg = cfg1d.rand_config(rng, model=model, per=False, flux=flux, units=(None if j else False),
+                                        scheme=cfg1d.rand_scheme(rng, ['extrapol1', 'muscl', 'extrapol2', 'extrapol3', 'extrapolk']))
+                cfg['bcL'] = {'type': 'sym'}; cfg['bcR'] = {'type': 'sym'}
+                ok, b = impl.guarded(cfg1d.build, cfg)
+                if not ok:
+                    continue
+                mod, msh, disc, f = b
+                ok, st = impl.guarded(cfg1d.stages, disc, f)
+                if not ok or not all(np.all(np.isfinite(np.asarray(x))) for x in st['res0']):
+                    res.count('skipped-inadmissible'); continue
+                res.case((model, 'walls', flux, cfg['scheme'][0]))
+                vol = msh.vol()
+                for k in ((0, 2) if mod.neq == 3 else (0,)):
+                    if model == 'nozzle':
+                        break          # the section-weighted integral is the conserved one for the nozzle: covered by the balance check above
+                    sc = float(np.sum(np.abs(np.diff(st['flux'][k])))) + float(np.max(np.abs(st['flux'][k]))) + 1e-300
+                    if abs(float(np.sum(vol * st['res0'][k]))) > 1e-11 * sc:
+                        res.fail('%s:walls' % model, "eq %d: wall-bounded integral changes by %r (flux %r, scheme %r): wall fluxes %r / %r" %
+                                 (k, float(np.sum(vol * st['res0'][k])), flux, cfg['scheme'], float(st['flux'][k][0]), float(st['flux'][k][-1])), dict(cfg=cfg))
     # ---- 2D operator
     for i in range(ctx.n(60, 1000)):
         kind = i % 3
@@ -143,7 +166,9 @@ def oracle(ctx, seeds=None):
         vol = msh.vol()
         for k in range(mod.neq):
             sc = float(np.sum(vol * np.abs(f.data[k]))) + float(np.sum(vol * np.abs(out.data[k] - f.data[k]))) + 1e-300
-            tol = 1e-11 if name in EXPL else 1e-7
+            # implicit family: the finite-difference Jacobian conserves up to round-off/eps ~ 1e-10 per entry, amplified by the
+            # conditioning of the system, which grows with the CFL number and the cell-size contrast
+            tol = 1e-11 if name in EXPL else 1e-7 * max(1.0, cfl) * float(np.max(vol) / np.min(vol))
             if abs(i1[k] - i0[k]) > tol * sc:
                 res.fail('solve/%s:drift' % name, "eq %d integral %r -> %r after %d steps (cfl %r, %s)" % (k, i0[k], i1[k], nit, cfl, cfg['model']),
                          dict(cfg=cfg, integrator=name, cfl=cfl, nit=nit))
@@ -167,7 +192,7 @@ def oracle(ctx, seeds=None):
             vol = msh.vol()
             i0 = float(np.sum(vol * f.data[0])); i1 = float(np.sum(vol * out.data[0]))
             sc = float(np.sum(vol * np.abs(f.data[0]))) + float(np.sum(vol * np.abs(out.data[0] - f.data[0]))) + 1e-300
-            if abs(i1 - i0) > 1e-7 * sc:
+            if abs(i1 - i0) > 1e-7 * max(1.0, cfl) * float(np.max(vol) / np.min(vol)) * sc:
                 res.fail('solve/%s:drift' % name, "integral %r -> %r after %d steps on a %s periodic mesh (cfl %r, %s, %r)" % (i0, i1, nit, cfg['mesh']['kind'], cfl, model, cfg['scheme']),
                          dict(cfg=cfg, integrator=name, cfl=cfl, nit=nit))
     return res
